@@ -112,15 +112,15 @@ theorem addView_some (c : Cas) (name : String) (x : Int) (num : Option Int) :
   cases num
   all_goals exact ⟨_, Cas.getViewRec_set_same _ _ _, rfl, fun n hn => Cas.getViewRec_set_other _ _ _ _ hn⟩
 
-/-- the second half of `parseSofa` -/
-def sofaTail (s : RState) (ci : Nat) (fsId : Int) (name : String) (c1 : Cas) (text : Option (List Nat))
+/-- the second half of `parseSofa`: the sofa is registered under the id it carries at the end -/
+def sofaTail (s : RState) (ci : Nat) (name : String) (c1 : Cas) (text : Option (List Nat))
     (m u : Option String) (arr : Val) : Except Err RState :=
   (Cas.setSofaString c1 { view := name, lenient := false } text).bind fun c2 =>
   (Cas.setSofaMime c2 { view := name, lenient := false } m).bind fun c3 =>
   (Cas.setSofaUri c3 { view := name, lenient := false } u).bind fun c4 =>
   (Cas.setSofaArray c4 { view := name, lenient := false } arr).bind fun c5 =>
   (Cas.cur c5 { view := name, lenient := false }).bind fun v =>
-    .ok { s with cas := c5, fss := setFs s.fss fsId (.sofa ci name),
+    .ok { s with cas := c5, fss := setFs s.fss v.sofa.xid (.sofa ci name),
                  maxId := max s.maxId v.sofa.xid, maxNum := max s.maxNum v.sofa.sofaNum }
 
 theorem bindE_ok' {α β} {x : Except Err α} {f : α → Except Err β} {b : β} (h : x.bind f = .ok b) :
@@ -129,15 +129,15 @@ theorem bindE_ok' {α β} {x : Except Err α} {f : α → Except Err β} {b : β
   | error e => cases h
   | ok a => exact ⟨a, rfl, h⟩
 
-theorem sofaTail_res {s s' : RState} {ci : Nat} {fsId : Int} {name : String} {c1 : Cas} {text : Option (List Nat)}
-    {m u : Option String} {arr : Val} (h : sofaTail s ci fsId name c1 text m u arr = .ok s')
-    {v1 : View} (hv1 : Cas.getViewRec c1 name = some v1) (hx1 : v1.sofa.xid = fsId)
+theorem sofaTail_res {s s' : RState} {ci : Nat} {name : String} {c1 : Cas} {text : Option (List Nat)}
+    {m u : Option String} {arr : Val} (h : sofaTail s ci name c1 text m u arr = .ok s')
+    {v1 : View} (hv1 : Cas.getViewRec c1 name = some v1)
     (hoth1 : ∀ n, n ≠ name → Cas.getViewRec c1 n = Cas.getViewRec s.cas n) :
     ∃ w : View,
-      s'.fss = setFs s.fss fsId (.sofa ci name) ∧ s'.heap = s.heap ∧ s'.deferred = s.deferred ∧
-      Cas.getViewRec s'.cas name = some w ∧ w.sofa.xid = fsId ∧
+      s'.fss = setFs s.fss w.sofa.xid (.sofa ci name) ∧ s'.heap = s.heap ∧ s'.deferred = s.deferred ∧
+      Cas.getViewRec s'.cas name = some w ∧ w.sofa.xid = v1.sofa.xid ∧ w.sofa.sofaNum = v1.sofa.sofaNum ∧
       (∀ n, n ≠ name → Cas.getViewRec s'.cas n = Cas.getViewRec s.cas n) ∧
-      s'.maxId = max s.maxId fsId ∧ s'.maxNum = max s.maxNum w.sofa.sofaNum := by
+      s'.maxId = max s.maxId w.sofa.xid ∧ s'.maxNum = max s.maxNum w.sofa.sofaNum := by
   unfold sofaTail at h
   obtain ⟨c2, h4, h⟩ := bindE_ok' h
   obtain ⟨c3, h5, h⟩ := bindE_ok' h
@@ -154,23 +154,25 @@ theorem sofaTail_res {s s' : RState} {ci : Nat} {fsId : Int} {name : String} {c1
   have k5 : SofaKeep name c4 c5 := by
     unfold Cas.setSofaArray at h7; exact updSofa_keep h7 (fun _ => ⟨rfl, rfl⟩)
   have k := ((k2.trans k3).trans k4).trans k5
-  obtain ⟨w', hw', hx', _⟩ := k.2 v1 hv1
+  obtain ⟨w', hw', hx', hn'⟩ := k.2 v1 hv1
   have hw2 : Cas.getViewRec c5 name = some w := Cas.cur_ok h8
   have e : w = w' := Option.some.inj (hw2.symm.trans hw')
   subst e
-  refine ⟨w, rfl, rfl, rfl, hw', hx'.trans hx1, ?_, ?_, rfl⟩
-  · intro n hn
-    exact (k.1 n hn).trans (hoth1 n hn)
-  · show max s.maxId w.sofa.xid = max s.maxId fsId
-    rw [hx'.trans hx1]
+  refine ⟨w, rfl, rfl, rfl, hw', hx', hn', ?_, rfl, rfl⟩
+  intro n hn
+  exact (k.1 n hn).trans (hoth1 n hn)
 
-/-- what `parseSofa` does -/
+/-- what `parseSofa` does: the sofa of the view `name` is registered under the id it carries at the end, which is the
+    id of the element — unless the view is not the initial one and existed already: then the view keeps its sofa id and
+    sofaNum (`cas.get_view(name)` in `_get_or_create_view`) -/
 theorem parseSofa_res (ci : Nat) (s s' : RState) (j : JFs) (h : parseSofa ci s j = .ok s') :
     ∃ (fsId : Int) (name : String) (w : View), j.id = some fsId ∧ sofaIdOf j = some name ∧
-      s'.fss = setFs s.fss fsId (.sofa ci name) ∧ s'.heap = s.heap ∧ s'.deferred = s.deferred ∧
-      Cas.getViewRec s'.cas name = some w ∧ w.sofa.xid = fsId ∧
+      s'.fss = setFs s.fss w.sofa.xid (.sofa ci name) ∧ s'.heap = s.heap ∧ s'.deferred = s.deferred ∧
+      Cas.getViewRec s'.cas name = some w ∧
+      (w.sofa.xid = fsId ∨ (name ≠ Cas.INITIAL_VIEW ∧ ∃ v0 : View, Cas.getViewRec s.cas name = some v0 ∧
+        w.sofa.xid = v0.sofa.xid ∧ w.sofa.sofaNum = v0.sofa.sofaNum)) ∧
       (∀ n, n ≠ name → Cas.getViewRec s'.cas n = Cas.getViewRec s.cas n) ∧
-      s'.maxId = max s.maxId fsId ∧ s'.maxNum = max s.maxNum w.sofa.sofaNum := by
+      s'.maxId = max s.maxId w.sofa.xid ∧ s'.maxNum = max s.maxNum w.sofa.sofaNum := by
   unfold parseSofa at h
   simp only [bind, Except.bind, pure, Except.pure, throw, throwThe, MonadExceptOf.throw] at h
   split at h
@@ -181,26 +183,36 @@ theorem parseSofa_res (ci : Nat) (s s' : RState) (j : JFs) (h : parseSofa ci s j
         unfold sofaIdOf
         rw [hname]
       split at h
-      · -- the view exists (or is the initial one): its sofa is updated
+      · -- the initial view: its sofa takes the id of the element
         split at h
         · cases h
         · rename_i c1 h3
           obtain ⟨v, hv, rfl⟩ := Cas.updSofa_ok h3
-          obtain ⟨w, r⟩ := sofaTail_res (s := s) (ci := ci) h (Cas.getViewRec_set_same _ _ _) rfl
-            (fun n hn => Cas.getViewRec_set_other _ _ _ _ hn)
-          exact ⟨fsId, name, w, hid, hname', r⟩
-      · split at h
-        · cases h
-        · rename_i r h4
-          unfold Cas.createView at h4
-          split at h4
-          · cases h4
-          · cases h4
-            obtain ⟨v1, hv1, hx1, ho1⟩ := addView_some s.cas name fsId
-              (match (j.feats.find? (fun p => p.1 == "sofaNum")).map (·.2) with
-                  | some (JV.int n) => some n | _ => none : Option Int)
-            obtain ⟨w, r⟩ := sofaTail_res (s := s) (ci := ci) h hv1 hx1 ho1
-            exact ⟨fsId, name, w, hid, hname', r⟩
+          obtain ⟨w, r1, r2, r3, r4, r5, _, r7, r8⟩ := sofaTail_res (s := s) (ci := ci) h
+            (Cas.getViewRec_set_same _ _ _) (fun n hn => Cas.getViewRec_set_other _ _ _ _ hn)
+          exact ⟨fsId, name, w, hid, hname', r1, r2, r3, r4, Or.inl r5, r7, r8⟩
+      · rename_i hni
+        split at h
+        · -- the view exists already: it is taken as it is
+          rename_i hex
+          obtain ⟨v0, hv0⟩ := Option.isSome_iff_exists.mp hex
+          obtain ⟨w, r1, r2, r3, r4, r5, r6, r7, r8⟩ := sofaTail_res (s := s) (ci := ci) h hv0 (fun n _ => rfl)
+          refine ⟨fsId, name, w, hid, hname', r1, r2, r3, r4, Or.inr ⟨?_, v0, hv0, r5, r6⟩, r7, r8⟩
+          intro e
+          rw [e] at hni
+          exact hni (beq_self_eq_true _)
+        · split at h
+          · cases h
+          · rename_i r h4
+            unfold Cas.createView at h4
+            split at h4
+            · cases h4
+            · cases h4
+              obtain ⟨v1, hv1, hx1, ho1⟩ := addView_some s.cas name fsId
+                (match (j.feats.find? (fun p => p.1 == "sofaNum")).map (·.2) with
+                    | some (JV.int n) => some n | _ => none : Option Int)
+              obtain ⟨w, r1, r2, r3, r4, r5, _, r7, r8⟩ := sofaTail_res (s := s) (ci := ci) h hv1 ho1
+              exact ⟨fsId, name, w, hid, hname', r1, r2, r3, r4, Or.inl (r5.trans hx1), r7, r8⟩
     · cases h
   · cases h
 
